@@ -21,6 +21,16 @@ CHECKS = {
         "note": NOTE_COMMON,
         "technique": "Coq proofs by list induction + reflected inv() table + vm_compute correspondence",
     },
+    "C03": {
+        "text": "Theorem for ALL nesting shapes: the model of the pass pipeline (Canonicalize in kirin's post-order walk, call rewriting, "
+                "RewriteScheduleRegion with its use-count rule for group members) equals the specification; the specification keeps every call "
+                "exactly once, in source order, with callee/positional/keyword arguments untouched, gives one play per top-level call or block and "
+                "merges directly nested same-kind blocks. The pass model is tied to the real pipeline by abstracting the compiled IR (following "
+                "SSA edges from every path.Play) for all block shapes up to depth/width/calls 2/2/4 (quick) or 3/3/5 (thorough) and random "
+                "programs with gates, fills, if/for; the IR is also scanned for surviving schedule blocks and device calls.",
+        "note": NOTE_COMMON + " kirin's CSE/DCE and Python-to-IR lowering are exercised, not verified; auto blocks cannot be executed, so they are compared structurally only.",
+        "technique": "Coq refinement proof over nested blocks (custom induction) + IR abstraction correspondence",
+    },
     "C11": {
         "text": "Theorems: every path the tracer model yields is well formed (invariant proved for all op sequences) and reversal preserves "
                 "well-formedness. wfb is evaluated in Coq on every path produced by generated kernels, library kernels and their reversals; a Python "
